@@ -1,12 +1,19 @@
 (* C08 — Lasso and elastic net.  Property theorems only; statements are about the executable model
    SC.C08.Model instantiated at the real numbers (`ROps`), which the correspondence check ties to
    src/linear/{lasso_optimizer,bg_solver,lasso,elastic_net}.rs on the optimiser's own recorded
-   iterations.  The convergence of the iteration (that the gap rule is reached within max_iter, that
-   PCG returns a usable direction) is NOT a theorem: see meta/C08.json. *)
+   iterations.  Every theorem about the optimiser holds for EVERY linear solver (`solver_t`: any
+   function producing a 2p-vector, i.e. any sequence of Newton directions): a wrong direction can
+   delay the exit through the duality-gap rule, it cannot falsify the certificate.
+   The convergence of the iteration (that the gap rule is reached within max_iter, that PCG returns
+   a usable direction, that the line search accepts) is NOT a theorem: see meta/C08.json. *)
 From Coq Require Import List ZArith Reals Lra Bool.
-From SC Require Import Base.Num C08.Model C08.ProofsBase C08.ProofsDual.
+From SC Require Import Base.Num C08.Model C08.ProofsBase C08.ProofsDual C08.ProofsFit C08.ProofsGap C08.ProofsEnd C08.ProofsExamples C08.ProofsExamples2.
 Import ListNotations.
 Local Open Scope R_scope.
+
+(* ------------------------------------------------------------------------------------------- *)
+(* 1. the certificate                                                                            *)
+(* ------------------------------------------------------------------------------------------- *)
 
 (* Weak duality of  min_w |Xw - y|^2 + lam |w|_1 : every nu with |X^T nu|_inf <= lam gives the lower
    bound  -nu.nu/4 - nu.y  on the objective of every w (all sizes, all data, lam >= 0). *)
@@ -16,9 +23,237 @@ Theorem C08_l1ls_weak_duality : forall (X : list (list R)) (y : list R) (lam : R
   dual_value ROps nu y <= pobj_of ROps X y lam w.
 Proof. exact l1ls_weak_duality. Qed.
 
+Example C08_l1ls_weak_duality_sat :
+  let X := [[1; 0]; [1; 1]; [0; 2]] in
+  let nu := [-1 / 2; -1 / 2; -1 / 4] in
+  Forall (fun v => Rabs v <= 1) (mattvec ROps 2 X nu) /\
+  dual_value ROps nu [1; 2; 3] = 135 / 64 /\ pobj_of ROps X [1; 2; 3] 1 [1; 1] = 3.
+Proof. exact ex_weak_duality_hyps. Qed.
+
 (* The code's dual point (nu = 2(Xw - y), multiplied by lam/|X^T nu|_inf when that exceeds lam) is
    always dual feasible. *)
 Theorem C08_dual_scaling_feasible : forall X yc lam w,
   0 <= lam ->
   Forall (fun v => Rabs v <= lam) (mattvec ROps (length w) X (dual_nu ROps X yc lam w)).
 Proof. exact dual_scaling_feasible. Qed.
+
+(* The running maximum `dobj` is a lower bound of the optimum in every state the loop can reach and
+   in whatever `optimize` returns — through the gap rule or through the iteration budget. *)
+Theorem C08_dobj_is_lower_bound :
+  forall (solver : solver_t (T := R)) X y lam max_iter tol,
+  length y = length X ->
+  (forall k st z gap b dxu, solver k st z gap = Some (b, dxu) -> length dxu = (2 * ncols X)%nat) ->
+  (forall k st, reachable solver X (center ROps y) (lam_used lam) tol (ncols X) k st ->
+     forall w', length w' = ncols X ->
+       0 <= st_dobj st <= lasso_objective ROps X (center ROps y) (lam_used lam) w') /\
+  (forall w r d, optimize_gen ROps solver X y lam max_iter tol = Some (w, r, d) ->
+     forall w', length w' = ncols X -> d <= lasso_objective ROps X (center ROps y) (lam_used lam) w').
+Proof.
+  intros solver X y lam max_iter tol Hy Hs. split.
+  - intros k st Hr w' Hw'.
+    destruct (reachable_inv solver X (center ROps y) (lam_used lam) tol (ncols X)
+                ltac:(rewrite center_length; exact Hy) ltac:(left; apply lam_used_pos) Hs k st Hr)
+      as [_ _ _ Hlb Hnn].
+    split; [exact Hnn | apply Hlb; exact Hw'].
+  - intros w r d H. exact (optimize_gen_dobj_lower_bound solver X y lam max_iter tol w r d Hy Hs H).
+Qed.
+
+(* |w_i| < u_i in every reachable state (the line search only accepts strictly interior points). *)
+Theorem C08_iterate_strictly_interior :
+  forall (solver : solver_t (T := R)) X yc lam tol p k st,
+  length yc = length X -> 0 <= lam ->
+  (forall k st z gap b dxu, solver k st z gap = Some (b, dxu) -> length dxu = (2 * p)%nat) ->
+  reachable solver X yc lam tol p k st ->
+  length (st_w st) = p /\ length (st_u st) = p /\
+  Forall (fun wu => Rabs (fst wu) < snd wu) (combine (st_w st) (st_u st)).
+Proof.
+  intros solver X yc lam tol p k st Hy Hl Hs Hr.
+  destruct (reachable_inv solver X yc lam tol p Hy Hl Hs k st Hr) as [H1 H2 H3 _ _]. auto.
+Qed.
+
+Example C08_reachable_sat : forall solver : solver_t (T := R),
+  reachable solver [[1; 2]; [3; 4]; [5; 7]] [1; -2; 1] 1 (1 / 1000) 2 0 (ip_init ROps 2 1).
+Proof. exact ex_reachable. Qed.
+
+(* Exit through `gap / dobj < tol || gap <= 0`  =>  the returned coefficients are within a factor
+   (1 + tol) of the minimum of  |Xw - (y - mean y)|^2 + lam' |w|_1  over ALL w in R^p
+   (lam' = max(lam, epsilon), the penalty the code really uses) — for any solver, any max_iter. *)
+Theorem C08_gap_stop_near_optimal :
+  forall (solver : solver_t (T := R)) X y lam max_iter tol w d,
+  length y = length X ->
+  (forall k st z gap b dxu, solver k st z gap = Some (b, dxu) -> length dxu = (2 * ncols X)%nat) ->
+  optimize_gen ROps solver X y lam max_iter tol = Some (w, ExitGap, d) -> 0 <= tol ->
+  forall w', length w' = ncols X ->
+    lasso_objective ROps X (center ROps y) (lam_used lam) w
+    <= (1 + tol) * lasso_objective ROps X (center ROps y) (lam_used lam) w'.
+Proof. exact optimize_gen_near_optimal_all. Qed.
+
+Example C08_gap_stop_sat : forall solver : solver_t (T := R),
+  ip_loop ROps solver [[1]; [-1]] [1; -1] 4 (1 / 10) 1 0 (ip_init ROps 1 4) = Some ([0], ExitGap, 2).
+Proof. exact ex_gap_stop. Qed.
+
+(* The validator: it builds its own dual point from an untrusted hint, checks feasibility itself,
+   and its acceptance implies (1 + ctol)-optimality of w among all vectors of the same length. *)
+Theorem C08_check_gap_certificate_sound : forall X yc lam w wd shrink ctol,
+  check_gap_certificate ROps X yc lam w wd shrink ctol = true ->
+  forall w', length w' = length w ->
+    pobj_of ROps X yc lam w <= (1 + ctol) * pobj_of ROps X yc lam w'.
+Proof. exact check_gap_certificate_sound. Qed.
+
+Example C08_check_gap_certificate_sat :
+  check_gap_with_nu ROps [[1]; [-1]] [1; -1] 4 [0] [-2; 2] (1 / 100) = true.
+Proof. exact ex_certificate_accepts. Qed.
+
+(* ------------------------------------------------------------------------------------------- *)
+(* 2. elastic net                                                                                *)
+(* ------------------------------------------------------------------------------------------- *)
+
+(* What `optimize` minimises on the augmented data (it centres the padded target again, penalty
+   l1*gamma) is the elastic-net objective of the back-scaled coefficients gamma * w~. *)
+Theorem C08_enet_augmentation_objective : forall (X : list (list R)) (y : list R) (l1 l2 : R) (wt : list R),
+  0 <= l2 -> length y = length X -> ncols X = length wt ->
+  let '(X2, y2, gamma) := augment ROps X y l2 in
+  pobj_of ROps X2 (center ROps y2) (l1 * gamma) wt =
+  enet_objective ROps X (center ROps y) l1 l2 (map (fun wi => gamma * wi) wt).
+Proof. exact enet_augmentation_objective. Qed.
+
+Example C08_enet_shapes_sat :
+  let X := [[1; 2]; [3; 4]; [5; 7]] in
+  0 <= 1 / 2 /\ length [1; 2; 4] = length X /\ ncols X = length [1; -1].
+Proof. exact ex_enet_shapes. Qed.
+
+(* l1_ratio = 1: gamma = 1 and the optimiser is handed the Lasso objective with penalty alpha*n. *)
+Theorem C08_enet_l1_ratio_one_is_lasso : forall (X : list (list R)) (y : list R) (alpha nf : R) (w : list R),
+  length y = length X -> ncols X = length w ->
+  let l1 := alpha * 1 * nf in
+  let l2 := alpha * (1 - 1) * nf in
+  let '(X2, y2, gamma) := augment ROps X y l2 in
+  gamma = 1 /\
+  pobj_of ROps X2 (center ROps y2) (l1 * gamma) w = lasso_objective ROps X (center ROps y) (alpha * nf) w.
+Proof. exact enet_l1_ratio_one_is_lasso. Qed.
+
+(* Adding a constant to every target changes the intercept by that constant and nothing else —
+   elastic net (after the repair D8) and Lasso, for every optimiser / solver. *)
+Theorem C08_enet_target_shift : forall opt X y alpha l1_ratio normalize tol max_iter c,
+  y <> [] ->
+  enet_fit_gen ROps opt X (map (fun v => v + c) y) alpha l1_ratio normalize tol max_iter =
+  shift_intercept c (enet_fit_gen ROps opt X y alpha l1_ratio normalize tol max_iter).
+Proof. exact enet_fit_shift. Qed.
+
+Theorem C08_lasso_target_shift :
+  forall (mk : list (list R) -> R -> solver_t (T := R)) X y alpha normalize tol max_iter c,
+  y <> [] ->
+  let opt := fun X y lam mi tol => opt_w (optimize_gen ROps (mk X lam) X y lam mi tol) in
+  lasso_fit_gen ROps opt X (map (fun v => v + c) y) alpha normalize tol max_iter =
+  shift_intercept c (lasso_fit_gen ROps opt X y alpha normalize tol max_iter).
+Proof. exact lasso_fit_shift. Qed.
+
+(* ------------------------------------------------------------------------------------------- *)
+(* 3. Lasso::fit                                                                                 *)
+(* ------------------------------------------------------------------------------------------- *)
+
+(* predict(X) with the back-transformed coefficients and intercept = mean(y) + Z w. *)
+Theorem C08_lasso_back_transform : forall (X : list (list R)) (means stds w : list R) (ymean : R),
+  Forall (fun row => length row = length w) X -> length means = length w -> length stds = length w ->
+  Forall (fun s => s <> 0) stds ->
+  let '(w', b) := back_transform ROps ymean means stds w in
+  predict ROps X w' b = map (fun v => v + ymean) (matvec ROps (scale_rows ROps X means stds) w).
+Proof. exact lasso_back_transform. Qed.
+
+Example C08_lasso_back_transform_sat :
+  let X := [[1; 2]; [3; 4]; [5; 7]] in
+  Forall (fun row : list R => length row = length [1; -1]) X /\
+  length [3; 13 / 3] = length [1; -1] /\ length [2; 3] = length [1; -1] /\
+  Forall (fun s : R => s <> 0) [2; 3].
+Proof. exact ex_back_transform_shapes. Qed.
+
+(* Invalid settings are errors (None), whatever the optimiser: n <= p, alpha < 0, tol <= 0,
+   max_iter = 0, length mismatch; and a constant column under normalisation. *)
+Theorem C08_lasso_param_errors : forall opt X y alpha normalize tol max_iter,
+  ((length X <= ncols X)%nat \/ alpha < 0 \/ tol <= 0 \/ max_iter = 0%nat \/ length y <> length X ->
+   lasso_fit_gen ROps opt X y alpha normalize tol max_iter = None) /\
+  (forall j v, X <> [] -> (j < ncols X)%nat -> col ROps j X = repeat v (length X) ->
+   lasso_fit_gen ROps opt X y alpha true tol max_iter = None).
+Proof.
+  intros opt X y alpha normalize tol max_iter. split.
+  - apply lasso_invalid_is_err.
+  - intros j v. apply lasso_constant_column_err.
+Qed.
+
+Example C08_constant_column_sat :
+  let X := [[1; 5]; [2; 5]; [3; 5]] in
+  X <> [] /\ (1 < ncols X)%nat /\ col ROps 1 X = repeat 5 (length X).
+Proof. exact ex_constant_column. Qed.
+
+(* ------------------------------------------------------------------------------------------- *)
+(* 4. the property statement assembled (for every linear solver `mk X lam`)                      *)
+(* ------------------------------------------------------------------------------------------- *)
+
+(* Lasso::fit on a rectangular X with valid settings, Z = `design normalize X` (standardised columns
+   or X itself): if the optimiser leaves through the gap rule then fit returns (coef, b) with
+   predict(X) = mean(y) + Z w, and w is within a factor (1 + tol) of the minimum over all w' of
+   |y - mean y - Z w'|^2 + lam |w'|_1,  lam = max(n * alpha, epsilon). *)
+Theorem C08_lasso_fit_certified :
+  forall (mk : list (list R) -> R -> solver_t (T := R)) X y alpha normalize tol max_iter Z w d,
+  Forall (fun row => length row = ncols X) X ->
+  lasso_valid ROps (length X) (ncols X) (length y) alpha tol max_iter = true ->
+  design normalize X = Some Z ->
+  let l1 := alpha * IZR (Z.of_nat (length X)) in
+  solver_shape (mk Z l1) (ncols X) ->
+  optimize_gen ROps (mk Z l1) Z y l1 max_iter tol = Some (w, ExitGap, d) ->
+  let opt := fun X y lam mi tol => opt_w (optimize_gen ROps (mk X lam) X y lam mi tol) in
+  exists coef b,
+    lasso_fit_gen ROps opt X y alpha normalize tol max_iter = Some (coef, b) /\
+    predict ROps X coef b = map (fun v => v + vmean ROps y) (matvec ROps Z w) /\
+    forall w', length w' = ncols X ->
+      lasso_objective ROps Z (center ROps y) (lam_used l1) w
+      <= (1 + tol) * lasso_objective ROps Z (center ROps y) (lam_used l1) w'.
+Proof. exact lasso_fit_certified. Qed.
+
+Example C08_lasso_fit_certified_sat : forall mk : list (list R) -> R -> solver_t (T := R),
+  let X := [[1]; [-1]] in
+  Forall (fun row => length row = ncols X) X /\
+  lasso_valid ROps (length X) (ncols X) (length [1; -1]) 2 (1 / 10) 1 = true /\
+  design false X = Some X /\
+  optimize_gen ROps (mk X (2 * IZR (Z.of_nat (length X)))) X [1; -1] (2 * IZR (Z.of_nat (length X))) 1 (1 / 10)
+    = Some ([0], ExitGap, 2).
+Proof. exact ex_lasso_fit_hyps. Qed.
+
+(* ElasticNet::fit: same, for the elastic-net objective
+   |y - mean y - Z w'|^2 + l2 |w'|^2 + l1 |w'|_1  with l2 = n alpha (1 - l1_ratio) and
+   l1 = n alpha l1_ratio (exactly: `enet_l1_eff`, which is l1 unless l1*gamma < epsilon),
+   at the back-scaled coefficients w = gamma * w~. *)
+Theorem C08_enet_fit_certified :
+  forall (mk : list (list R) -> R -> solver_t (T := R)) X y alpha l1_ratio normalize tol max_iter Z wt d,
+  Forall (fun row => length row = ncols X) X ->
+  length y = length X -> 0 <= tol ->
+  design normalize X = Some Z ->
+  let nf := IZR (Z.of_nat (length X)) in
+  let l1 := alpha * l1_ratio * nf in
+  let l2 := alpha * (1 - l1_ratio) * nf in
+  0 <= l2 ->
+  let '(X2, y2, gamma) := augment ROps Z y l2 in
+  solver_shape (mk X2 (l1 * gamma)) (ncols X) ->
+  optimize_gen ROps (mk X2 (l1 * gamma)) X2 y2 (l1 * gamma) max_iter tol = Some (wt, ExitGap, d) ->
+  let opt := fun X y lam mi tol => opt_w (optimize_gen ROps (mk X lam) X y lam mi tol) in
+  let w := map (fun wi => gamma * wi) wt in
+  exists coef b,
+    enet_fit_gen ROps opt X y alpha l1_ratio normalize tol max_iter = Some (coef, b) /\
+    predict ROps X coef b = map (fun v => v + vmean ROps y) (matvec ROps Z w) /\
+    forall w', length w' = ncols X ->
+      enet_objective ROps Z (center ROps y) (enet_l1_eff l1 gamma) l2 w
+      <= (1 + tol) * enet_objective ROps Z (center ROps y) (enet_l1_eff l1 gamma) l2 w'.
+Proof. exact enet_fit_certified. Qed.
+
+Theorem C08_enet_l1_eff_is_l1 : forall l1 gamma,
+  0 < gamma -> c_eps ROps <= l1 * gamma -> enet_l1_eff l1 gamma = l1.
+Proof. exact enet_l1_eff_id. Qed.
+
+Example C08_enet_fit_certified_sat : forall mk : list (list R) -> R -> solver_t (T := R),
+  let X := [[1]; [-1]] in
+  let y := [1; -1] in
+  let nf := IZR (Z.of_nat (length X)) in
+  0 <= 2 * (1 - 1) * nf /\ design false X = Some X /\
+  let '(X2, y2, gamma) := augment ROps X y (2 * (1 - 1) * nf) in
+  optimize_gen ROps (mk X2 (2 * 1 * nf * gamma)) X2 y2 (2 * 1 * nf * gamma) 1 (1 / 10) = Some ([0], ExitGap, 2).
+Proof. exact ex_enet_fit_hyps. Qed.
